@@ -26,8 +26,8 @@ META = dict(
          "(8 lengths per 300-candle series, 500/3400 on one long series; thorough adds every length 1..120 on two series). "
          "Inputs are at least as long as the sum of the indicator's period parameters (below that several numba kernels "
          "leave defined behaviour; the harness runs them with NUMBA_BOUNDSCHECK=1 and in forked children). Indicators "
-         "raising on an input are skipped for that length (counted). Discrete-valued fields are not judged on exactly "
-         "constant/periodic series (last-bit ties). Six public functions have no `sequential` parameter and are outside the "
+         "raising on an input are skipped for that length (counted). A rejection is reported only if it is confirmed on the "
+         "1e-6-jittered twin of the series (last-bit ties on lattice inputs are not look-ahead). Six public functions have no `sequential` parameter and are outside the "
          "property; they are listed in the evidence.",
     design_ref="4/C13")
 
@@ -35,7 +35,6 @@ KINDS_Q = [("random", 300, 1), ("trend", 300, 1), ("flat", 300, 1), ("spike", 30
 KINDS_T = KINDS_Q + [("random", 300, 2), ("alternating", 300, 1), ("monotone", 300, 1), ("real", 300, 1), ("real", 300, 2),
                      ("trend", 300, 2), ("spike", 300, 3), ("random", 300, 3, 2.0 ** 20), ("spike", 300, 4, 2.0 ** -20)]
 PREFIXES = [20, 45, 64, 100, 150, 199, 241, 300]
-TIE_KINDS = ("flat", "alternating", "monotone")     # exactly constant / periodic inputs
 LONG = ("random", 3400, 5)
 LONG_PREFIXES = [500, 3400]
 
@@ -86,7 +85,6 @@ def job(item):
 
 def record(entry, kw, sp, prefixes, c, c2, ps, stats, only_field=None):
     runs = {}
-    discrete = set()
     lo = D.min_len(entry, kw)
     prefixes = [k for k in prefixes if k >= lo]
     for k in prefixes:
@@ -94,7 +92,6 @@ def record(entry, kw, sp, prefixes, c, c2, ps, stats, only_field=None):
         try:
             r = D.call(entry, c[:k], c2[:k], kw, True)
             runs[k] = {f: D.as_list(v) for f, v in D.fields_of(r)}
-            discrete.update(f for f, v in D.fields_of(r) if D.is_discrete(v))
         except Exception as ex:
             stats["skipped"] += 1
             stats["exc"][D.exc_name(ex)] = stats["exc"].get(D.exc_name(ex), 0) + 1
@@ -108,11 +105,6 @@ def record(entry, kw, sp, prefixes, c, c2, ps, stats, only_field=None):
             continue
         if ref is None:
             stats["not_series"].add(f)
-            continue
-        if f in discrete and sp[0] in TIE_KINDS:
-            # flags / strings are decided by float comparisons; on exactly periodic or constant inputs these are exact
-            # ties settled by the last bit, which legitimately differs between vectorised runs of different length
-            stats["discrete_on_tie_series"] = stats.get("discrete_on_tie_series", 0) + 1
             continue
         kind = "str" if any(D.kind_of(runs[k].get(f) or []) == "str" for k in ok) else "num"
         unit = D.scale_of(ref, ps) * 1e-6
@@ -161,25 +153,65 @@ def sig_of(h, verdict):
     return "%s.%s:%s" % (h["ind"], h["field"], verdict.split(":")[0])
 
 
-def judge(ctx, traces, parts):
+def judge(ctx, traces, parts, first_id=1):
+    """TLC's verdict per trace: {trace id: (events consumed, verdict)}"""
     for i, t in enumerate(traces):
-        t["id"] = i + 1
+        t["id"] = first_id + i
     slim = [{"id": t["id"], "hdr": {k: t["hdr"][k] for k in ("kind", "exempt")}, "ev": t["ev"]} for t in traces]
     verdicts, results = tlc.validate_traces("TraceCausal", "TraceCausal.cfg", slim, ctx.scratch, parts=parts, timeout=2400,
                                              heap=ctx.pick("1g", "2g"), max_procs=ctx.pick(16, 12))
-    bad = 0
     for t in traces:
+        if verdicts[t["id"]][1].startswith("trace:"):
+            raise Machinery("malformed trace %s.%s: %s" % (t["hdr"]["ind"], t["hdr"]["field"], verdicts[t["id"]][1]))
+    return verdicts, results
+
+
+def twin_job(item):
+    """re-record rejected cases on the jittered twin of their series (same shape, no exact ties between candles)"""
+    entry, kw, sp, prefixes, field = item
+    spj = tuple(sp[:3]) + ((sp[3] if len(sp) > 3 else 1.0), "jitter")
+    stats = {"calls": 0, "skipped": 0, "not_series": set(), "exc": {}}
+    with contextlib.redirect_stdout(io.StringIO()):
+        c = D.build_series(spj)
+        c2 = D.build_series((spj[0], spj[1], spj[2] + 1000) + tuple(spj[3:]))
+        return record(entry, kw, spj, prefixes, c, c2, D.pscale_of(c), stats, only_field=field)
+
+
+def confirm_and_report(ctx, cat, traces, verdicts):
+    """A rejected trace is reported when TLC also rejects the same case on the jittered twin series.  On integer-lattice
+    (and exactly periodic) inputs, discontinuous indicators (flags, adaptive periods) decide exact ties by the last bit of
+    a float, and that bit legitimately differs between vectorised runs of different length; a look-ahead, a global
+    normaliser or a wrap-around survives a 1e-6 jitter of the input, a last-bit tie does not."""
+    by_name = {e["name"]: e for e in cat}
+    rejected = [t for t in traces if verdicts[t["id"]][1] != "ok"]
+    items = [(by_name[t["hdr"]["ind"]], t["kw"], tuple(t["hdr"]["series"]), [e["len"] for e in t["ev"]], t["hdr"]["field"])
+             for t in rejected]
+    twins = D.pmap(twin_job, items) if items else []
+    twin_traces, owner = [], {}
+    for t, r in zip(rejected, twins):
+        if isinstance(r, tuple) and r and r[0] in ("EXC", "CRASH"):
+            continue
+        for x in r:
+            owner[len(twin_traces)] = t["id"]
+            twin_traces.append(x)
+    confirmed = {}
+    if twin_traces:
+        v2, _ = judge(ctx, twin_traces, parts=min(16, len(twin_traces)), first_id=len(traces) + 1)
+        for i, x in enumerate(twin_traces):
+            confirmed[owner[i]] = v2[x["id"]][1] != "ok"
+    bad, ties = 0, []
+    for t in rejected:
         l, v = verdicts[t["id"]]
-        if v.startswith("trace:"):
-            raise Machinery("malformed trace %s.%s: %s" % (t["hdr"]["ind"], t["hdr"]["field"], v))
-        if v != "ok":
-            bad += 1
-            h = t["hdr"]
-            ctx.violation(sig_of(h, v), "%s(%s).%s on series %s: the run on %d candles does not extend the shorter run: %s" % (
-                h["ind"], h["params"], h["field"], h["series"], t["ev"][l - 1]["len"], v),
-                {"ind": h["ind"], "kw": t["kw"], "series": h["series"], "field": h["field"],
-                 "prefixes": [e["len"] for e in t["ev"]]})
-    return verdicts, results, bad
+        h = t["hdr"]
+        if confirmed.get(t["id"], True) is False:
+            ties.append("%s(%s).%s on %s" % (h["ind"], h["params"], h["field"], h["series"]))
+            continue
+        bad += 1
+        ctx.violation(sig_of(h, v), "%s(%s).%s on series %s: the run on %d candles does not extend the shorter run: %s" % (
+            h["ind"], h["params"], h["field"], h["series"], t["ev"][l - 1]["len"], v),
+            {"ind": h["ind"], "kw": t["kw"], "series": h["series"], "field": h["field"],
+             "prefixes": [e["len"] for e in t["ev"]]})
+    return bad, ties
 
 
 def run(ctx):
@@ -205,7 +237,7 @@ def run(ctx):
             else:
                 res.append(r)
     traces, calls, skipped, notseries, excs = [], 0, 0, {}, {}
-    per_ind, tie_skips = {}, 0
+    per_ind = {}
     for r in res:
         if r[0] == "EXC":
             raise Machinery("worker failed: %s" % r[1])
@@ -213,7 +245,6 @@ def run(ctx):
         traces += tr
         calls += st["calls"]
         skipped += st["skipped"]
-        tie_skips += st.get("discrete_on_tie_series", 0)
         per_ind[name] = per_ind.get(name, 0) + len(tr)
         if st["not_series"]:
             notseries[name] = st["not_series"]
@@ -223,7 +254,8 @@ def run(ctx):
     if silent:
         raise Machinery("no trace recorded for %s (the generic caller no longer fits)" % silent)
     ctx.log("%d traces from %d calls (%d skipped)" % (len(traces), calls, skipped))
-    verdicts, results, bad = judge(ctx, traces, parts=ctx.pick(16, 48))
+    verdicts, results = judge(ctx, traces, parts=ctx.pick(16, 48))
+    bad, ties = confirm_and_report(ctx, cat, traces, verdicts)
     for t in traces:
         h = t["hdr"]
         if h["finite"] >= 30:
@@ -237,10 +269,10 @@ def run(ctx):
     ctx.coverage.update({
         "traces_validated_against_impl": len(traces), "indicator_calls": calls, "calls_skipped_exception": skipped,
         "exception_classes": excs, "indicators_covered": len(per_ind), "interpreter_crashes": crashed,
-        "discrete_fields_not_judged_on_constant_or_periodic_series": tie_skips,
         "fields_covered": len({(t["hdr"]["ind"], t["hdr"]["field"]) for t in traces}),
         "outside_property_no_sequential_parameter": outside, "non_series_fields": notseries,
         "trace_events_checked_by_tlc": sum(r.generated for r in results), "rejected_traces": bad,
+        "rejected_on_lattice_but_accepted_on_jittered_twin_not_reported": ties[:40],
         "samples": samples,
         "rule": "one case = (indicator, field, parameter set, candle series): the sequential series on growing prefixes "
                 "(%s%s; one long series of 3400 candles with prefixes 500 and 3400). Non-trivial = the longest run has >= 30 finite (non-NaN) entries and >= 2 runs succeeded; distinct "
@@ -251,9 +283,10 @@ def run(ctx):
         "max(|finite values of the longest run|, 1e-6 x max close); NaN, +inf and -inf only equal themselves",
         "an indicator that raises on a (short) input is skipped for that length",
         "the second candle array of beta/rsmk is an independent series cut to the same prefix",
-        "fields with discrete values (strings, booleans, integer codes) are not judged on exactly constant or periodic "
-        "series (flat, alternating, monotone): there the deciding float comparisons are exact ties settled by the last bit, "
-        "which differs between vectorised (BLAS) runs of different length (seen: hull_suit.signal, Thma mode)"]
+        "a rejected trace is reported only when TLC also rejects the same case on the jittered twin of the series (every "
+        "price and volume multiplied by 1 + 1e-6 u): exact ties on lattice / periodic inputs are decided by the last bit of a "
+        "float, which differs between vectorised runs of different length (seen: hull_suit.signal on an alternating series, "
+        "vlma with the smma selector on a lattice trend); structural look-ahead survives the jitter"]
 
 
 def replay(ctx, rp):
@@ -269,6 +302,8 @@ def replay(ctx, rp):
         traces = record(e, p["kw"], sp, p["prefixes"], c, c2, D.pscale_of(c), stats, only_field=p["field"])
     if not traces:
         raise Machinery("replay produced no trace")
-    verdicts, results, bad = judge(ctx, traces, parts=1)
+    verdicts, results = judge(ctx, traces, parts=1)
+    bad, ties = confirm_and_report(ctx, D.catalog(), traces, verdicts)
     for t in traces:
-        print("replay verdict:", t["hdr"]["ind"], t["hdr"]["field"], verdicts[t["id"]])
+        print("replay verdict:", t["hdr"]["ind"], t["hdr"]["field"], verdicts[t["id"]],
+              "(not confirmed on the jittered twin)" if ties else "")
